@@ -1,7 +1,7 @@
 (* C11 — property theorems only.  Every proof is `exact <lemma>` or a closed computation on a refutation witness. *)
 From Coq Require Import List NArith ZArith Bool.
 Import ListNotations.
-From VF Require Import C11.Model C11.Proofs C11.ProofsB C11.Corr C11.ProofsS C11.ProofsL.
+From VF Require Import C11.Model C11.Proofs C11.ProofsB C11.ProofsF C11.Corr C11.ProofsS C11.ProofsL.
 Local Open Scope N_scope.
 
 (* The in-memory provider (repaired Query) returns, for EVERY operation sequence from EVERY content, exactly what the
@@ -77,6 +77,46 @@ Proof. intros s pre ops Hs Hpre Hops.
   apply (sim_run_state wf_op false (prov_of s) (stack_rel s)); [apply stack_sim; assumption|assumption|apply stack_rel_init; assumption]. Qed.
 Print Assumptions mem_stack_rewrap_refines.
 
+
+(* formattedstore with DETERMINISTIC key formatting, for ANY formatter that is injective on keys / tag names / tag
+   values, reversible, keeps the empty string and produces no ':' (fmt_ok; instances: the no-op and the base64
+   example formatters), over ANY provider that simulates the contract: the provider holds the formatted image of the
+   contract state.  Guard wf1_op: queries have one criterion (formattedstore does not implement "&&"). *)
+Theorem formatted_det_transparent : forall (F : formatter) pers (P : prov) R,
+  fmt_ok F -> sim wf1_op pers P R -> sim wf1_op pers (formatted_det F P) (fmt_rel F P R).
+Proof. intros F pers P R HF HP. apply formatted_det_sim; assumption. Qed.
+Print Assumptions formatted_det_transparent.
+
+Theorem formatter_instances_ok : fmt_ok noop_fmt /\ fmt_ok b64_fmt.
+Proof. split; [exact noop_ok|exact b64_ok]. Qed.
+Print Assumptions formatter_instances_ok.
+
+(* stacks of caching, batching AND formatting wrappers of any depth over the in-memory provider *)
+Theorem plain_stack_refines : forall s ops, plain_stack s = true -> forallb wf1_op ops = true ->
+  run (prov_of s) (init (prov_of s)) ops = run (spec_prov false) [] ops.
+Proof. intros s ops Hs Hops. apply (sim_run wf1_op false (prov_of s) (stack_rel s));
+  [apply plain_stack_sim; assumption|assumption|apply plain_stack_rel_init; assumption]. Qed.
+Print Assumptions plain_stack_refines.
+
+Theorem plain_stack_rewrap_refines : forall s pre ops, plain_stack s = true ->
+  forallb wf1_op pre = true -> forallb wf1_op ops = true ->
+  run (prov_of s) (rewrap s (run_state (prov_of s) (init (prov_of s)) pre)) ops =
+  run (spec_prov false) (run_state (spec_prov false) [] pre) ops.
+Proof. intros s pre ops Hs Hpre Hops.
+  apply (sim_run wf1_op false (prov_of s) (stack_rel s)); [apply plain_stack_sim; assumption|assumption|].
+  apply plain_stack_rel_rewrap; [assumption|].
+  apply (sim_run_state wf1_op false (prov_of s) (stack_rel s)); [apply plain_stack_sim; assumption|assumption|apply plain_stack_rel_init; assumption]. Qed.
+Print Assumptions plain_stack_rewrap_refines.
+
+Example plain_stack_nonvacuous :
+  let s := SFmt FB64 (SBatched 2 (SCached (SFmt FNoop SMem))) in
+  let ops := [Put 1 1 [(1, 1)]; Put 2 2 [(1, 1); (2, 2)]; Get 1; Put 1 3 []; GetTags 1; Query [(1, 1)];
+              Batch [(3, 1, [(1, 2)]); (2, 0, [])]; Query [(1, 0)]; Delete 3; GetBulk [1; 3]] in
+  plain_stack s = true /\ forallb wf1_op ops = true /\
+  run (prov_of s) (init (prov_of s)) ops =
+  [ODone; ODone; OVal 1; ODone; OTags []; OQuery [(2, (2, [(1, 1); (2, 2)]))]; ODone; OQuery [(3, (1, [(1, 2)]))];
+   ODone; OBulk [3; 0]].
+Proof. vm_compute. repeat split. Qed.
 
 (* LevelDB.  FULL statement (every history returns what the contract prescribes, Close keeps the data): REFUTED by the
    model of the code as it is — obs #8, corpus/C11/leveldb-stale-tag-index.json, known finding
